@@ -14,6 +14,9 @@ var props = map[string]propConf{
 	"C03": {level: "model_checking", worker: "worker", quickDL: 150, thorDL: 1200,
 		rule:   "every catalogue operator and ordered pair x every legal script (<= 3 values quick / 4 thorough; pairs 2 / 3) ending in completion, error, or never (then Unsubscribe) on a cold source, and on a pushed source with Unsubscribe at every prefix position from outside and from inside the k-th callback; oracle: per-source teardown count == subscription count, no live subscription, no managed goroutine blocked, no virtual timer armed; plus all schedules (bound 3) of Complete/Error/Unsubscribe/Add/Wait races on one subscriber with counted teardowns, and every subset of panicking teardowns",
 		assume: commonAssume},
+	"C07": {level: "fault_enumeration", worker: "worker", quickDL: 150, thorDL: 1200,
+		rule:   "fault enumeration: for every catalogue operator and every legal script (<= 2 values quick / 3 thorough) a fault-free run discovers the user-callback slots and their invocation counts; then every (slot, invocation index <= 3, kind in {panic(error), panic(string), returned error where the callback can return one}) is injected, one fault per execution; likewise every notification index of the final observer's own callbacks and every position of the source's subscribe function; pairs of operators on a core set (quick) / all ordered pairs (thorough); asynchronous positions (Future, Start, Defer, Iif, callbacks behind Interval/Delay/ObserveOn/FromChannel) under the scheduler. Oracle: no panic reaches the caller or a goroutine top, values before the fault are a prefix of the fault-free run, exactly one Error matching the cause and nothing after, a fresh subscription afterwards neither panics nor blocks, failures nobody can receive reach a hook; non-trivial = executions in which the fault actually fired",
+		assume: commonAssume},
 	"C08": {level: "model_checking", worker: "worker", quickDL: 150, thorDL: 1200,
 		rule:   "every synchronous catalogue operator and ordered pair x every legal script (<= 3 values quick / 5 thorough; pairs 2 / 3) pushed notification by notification: right after each Next/terminal returns the observer must hold exactly the reference model's output for the prefix, every callback ran on the pushing thread and no goroutine was spawned; hand-off operators (ObserveOn, SubscribeOn, ToChannel): capacities 1-3, input lengths 0..n+3, all schedules of producer and consumer within the bound, FIFO/no loss/terminal last/producer never ahead by more than capacity+2",
 		assume: commonAssume},
